@@ -613,7 +613,16 @@ impl BuiltInFunction {
                 nums.sort_by(|a, b| a.partial_cmp(b).unwrap());
                 let len = nums.len();
                 if len % 2 == 0 {
-                    Ok(Value::Number((nums[len / 2 - 1] + nums[len / 2]) / 2.0))
+                    let (lower, upper) = (nums[len / 2 - 1], nums[len / 2]);
+                    let sum = lower + upper;
+                    // The sum of two huge finite values overflows although their mean does
+                    // not; halving each first is exact at that magnitude
+                    let mean = if sum.is_infinite() && lower.is_finite() && upper.is_finite() {
+                        lower / 2.0 + upper / 2.0
+                    } else {
+                        sum / 2.0
+                    };
+                    Ok(Value::Number(mean))
                 } else {
                     Ok(Value::Number(nums[len / 2]))
                 }
